@@ -34,7 +34,8 @@ FILE_SHAPES = ["one-path", "one-str", "two-same-dir", "two-diff-dir", "missing-a
                "nested-second", "nested-first", "nested-third", "parent-second"]
 BEHAVIOURS = [("ok", k, None) for k in (0, 1, 2)] + [("no-result", 1, None), ("fail-at-call", 0, None)] + \
              [("fail", k, i) for k in (0, 1, 2) for i in range(0, k + 1)] + \
-             [("fail-wr", k, (i, w)) for k in (0, 1, 2) for i in range(0, k + 1) for w in range(0, i + 1)]   # result file written before chunk w, failure at i
+             [("fail-wr", k, (i, w)) for k in (0, 1, 2) for i in range(0, k + 1) for w in range(0, i + 1)] + \
+             [("ok-big", 4, None), ("fail-big", 4, 4), ("fail-big", 4, 3), ("fail-wr-big", 4, (4, 0))]   # result file written before chunk w, failure at i
 
 
 def one_case(case):
@@ -103,7 +104,10 @@ def one_case(case):
             tempfile.gettempdir()
         python_on_whales.CALLS.clear()
         kind, k, fail_i = beh
-        chunks = [("stdout" if i % 2 == 0 else "stderr", f"chunk{i}\n".encode()) for i in range(k)]
+        big = kind.endswith("-big")       # a chatty container: 50 000 characters per chunk
+        if big:
+            kind = kind[:-4]
+        chunks = [("stdout" if i % 2 == 0 else "stderr", (f"chunk{i}\n" * (8000 if big else 1)).encode()) for i in range(k)]
         write_before = None
         if kind == "fail-wr":
             fail_i, write_before = fail_i
@@ -186,6 +190,8 @@ def judge(case, o):
     backend, shape, image_mode, md_pos, outdir_mode, beh, tempdir_init = case[:7]
     probs = []
     kind, k, fail_i = beh
+    if kind.endswith("-big"):
+        kind = kind[:-4]
     cache = BACKENDS[backend][4]
     bad_files = shape in ("missing-alone", "missing-second", "empty", "two-diff-dir", "nested-second", "nested-first", "nested-third", "parent-second")
     if len(case) > 7 and case[7] == "same-md" and o.get("prior_image") not in (None, "earlier/image:3"):
@@ -276,6 +282,8 @@ def main(tier="quick"):
                     for outdir_mode in ("default", "given"):
                         for beh in BEHAVIOURS:
                             for tinit in (True, False):
+                                if beh[0].endswith("-big") and (shape not in ("one-path", "two-same-dir") or image_mode != "default" or md_pos not in ("none", "last") or not tinit):
+                                    continue      # chatty containers: crossed with the backends, two file shapes, metadata presence and the output directory
                                 if md_pos in ("aba", "aab") and (beh != ("ok", 1, None) or not tinit or outdir_mode != "default" or image_mode != "default" or shape not in ("one-path", "two-same-dir")):
                                     continue      # several docker blocks: crossed with the backends only
                                 if image_mode in ("registry-port", "tag-only") and (beh != ("ok", 1, None) or not tinit or outdir_mode != "default" or md_pos in ("first", "middle")):
